@@ -138,14 +138,21 @@ Fixpoint join (c : ascii) (l : list string) : string :=
 
 Definition comma : ascii := ","%char.
 
-Inductive stations : Set := AsText (s : string) | AsList (l : list string).
+(* The station argument (`Union[str, Iterable]`): comma-separated text, a re-iterable collection (list, tuple,
+   dict keys view: `AsList l`, l = the names it enumerates) or a ONE-SHOT iterable (generator expression, map /
+   filter object, iterator: `AsIter l`, l = the names it yields when it is consumed).  A one-shot iterable
+   denotes the same request as the list it enumerates: every entry point consumes it exactly once, before the
+   first module is asked. *)
+Inductive stations : Set := AsText (s : string) | AsList (l : list string) | AsIter (l : list string).
 
-(* ModuleBase.get / SiteInfo.get:  text -> [s.strip().lower() for s in text.split(",")],
-                                   list -> [s.lower() for s in list] *)
+(* ModuleBase.get / get_history, SiteInfo.get / get_history:
+                                   text -> [s.strip().lower() for s in text.split(",")],
+                                   any other iterable -> [s.lower() for s in iterable] *)
 Definition normalize (st : stations) : list string :=
   match st with
   | AsText s => map (fun x => lower (strip x)) (split_on comma s)
   | AsList l => map lower l
+  | AsIter l => map lower l
   end.
 
 (* ------------------------------------------------------------------ module level *)
@@ -196,7 +203,13 @@ Definition module_get1q (qk : quirks) (sd : source) (st : string) (q : query) : 
   end.
 Definition module_get1 := module_get1q all_off.
 
-(* result dict {station: answer}: later duplicates overwrite, first position kept *)
+(* result dict {station: value}: later duplicates overwrite, first position kept *)
+Fixpoint adict_set {A : Type} (d : list (string * A)) (k : string) (v : A) : list (string * A) :=
+  match d with
+  | [] => [(k, v)]
+  | (k', v') :: r => if String.eqb k k' then (k', v) :: r else (k', v') :: adict_set r k v
+  end.
+
 Fixpoint sdict_set (d : list (string * answer)) (k : string) (v : answer) : list (string * answer) :=
   match d with
   | [] => [(k, v)]
@@ -232,18 +245,67 @@ Fixpoint site_info_list (mods : list source) (sts : list string) (q : query)
       let row := site_info_get1 mods st q in
       match find is_err row with
       | Some e => inr e
-      | None =>
-          let fix set (d : list (string * list answer)) :=
-            match d with
-            | [] => [(st, row)]
-            | (k', v') :: d' => if String.eqb st k' then (k', row) :: d' else (k', v') :: set d'
-            end in
-          site_info_list mods r q (set acc)
+      | None => site_info_list mods r q (adict_set acc st row)
       end
   end.
 
 Definition site_info_get (mods : list source) (st : stations) (q : query) :=
   site_info_list mods (normalize st) q [].
+
+(* ------------------------------------------------------------------ get_history (no date): the history itself.
+   Per station: inl (Some h) = history object with dict h, inl None = history object whose `.history` is None,
+   inr e = the call raises. *)
+Definition hres : Set := (option history + answer)%type.
+
+Definition module_hist1 (sd : source) (st : string) : hres :=
+  match sd with
+  | [] => inl (Some [])                 (* `if source_data:` is false -> history = {} *)
+  | _ =>
+    match lookup_station sd st with
+    | None => inr ErrMissing
+    | Some None => inl None
+    | Some (Some rs) => inl (Some (create_history rs))
+    end
+  end.
+
+(* ModuleBase.get_history *)
+Fixpoint module_hist_list (sd : source) (sts : list string) (acc : list (string * option history))
+  : list (string * option history) + answer :=
+  match sts with
+  | [] => inl acc
+  | st :: r =>
+      match module_hist1 sd st with
+      | inr e => inr e
+      | inl h => module_hist_list sd r (adict_set acc st h)
+      end
+  end.
+
+Definition module_get_history (sd : source) (st : stations) := module_hist_list sd (normalize st) [].
+
+(* SiteInfo.get_history over the history modules *)
+Definition site_info_hist1 (mods : list source) (st : string) : list hres :=
+  map (fun sd => module_hist1 sd st) mods.
+
+Fixpoint hrow (l : list hres) : list (option history) + answer :=
+  match l with
+  | [] => inl []
+  | inr e :: _ => inr e
+  | inl h :: r => match hrow r with inr e => inr e | inl t => inl (h :: t) end
+  end.
+
+Fixpoint site_info_hist_list (mods : list source) (sts : list string)
+  (acc : list (string * list (option history))) : list (string * list (option history)) + answer :=
+  match sts with
+  | [] => inl acc
+  | st :: r =>
+      match hrow (site_info_hist1 mods st) with
+      | inr e => inr e
+      | inl row => site_info_hist_list mods r (adict_set acc st row)
+      end
+  end.
+
+Definition site_info_get_history (mods : list source) (st : stations) :=
+  site_info_hist_list mods (normalize st) [].
 
 (* ------------------------------------------------------------------ repeated queries on one source
    (purity).  The SSC site-coordinate history is built with raw_info.pop("pos_vel") in the current
@@ -306,6 +368,31 @@ Definition sres_eqb (x y : list (string * list answer) + answer) : bool :=
 Definition check_site_info (c : list source * stations * query * (list (string * list answer) + answer)) : Z :=
   let '(mods, st, q, obs) := c in
   if sres_eqb (site_info_get mods st q) obs then 0 else 1.
+
+Definition hist_eqb (a b : history) : bool :=
+  list_eqb (fun p q => key_eqb (fst p) (fst q) && (snd p =? snd q)) a b.
+Definition ohist_eqb (a b : option history) : bool :=
+  match a, b with Some x, Some y => hist_eqb x y | None, None => true | _, _ => false end.
+
+(* ModuleBase.get_history: source, request, {station: history} or the exception *)
+Definition check_module_history (c : source * stations * (list (string * option history) + answer)) : Z :=
+  let '(sd, st, obs) := c in
+  match module_get_history sd st, obs with
+  | inl a, inl b => if list_eqb (fun p q => String.eqb (fst p) (fst q) && ohist_eqb (snd p) (snd q)) a b then 0 else 1
+  | inr a, inr b => if answer_eqb a b then 0 else 1
+  | _, _ => 1
+  end.
+
+(* SiteInfo.get_history: module sources, request, {station: [history per module]} or the exception *)
+Definition check_site_info_history
+  (c : list source * stations * (list (string * list (option history)) + answer)) : Z :=
+  let '(mods, st, obs) := c in
+  match site_info_get_history mods st, obs with
+  | inl a, inl b =>
+      if list_eqb (fun p q => String.eqb (fst p) (fst q) && list_eqb ohist_eqb (snd p) (snd q)) a b then 0 else 1
+  | inr a, inr b => if answer_eqb a b then 0 else 1
+  | _, _ => 1
+  end.
 
 (* repeated queries: 0 = equals the specification, 2 = differs from it but equals the model with the
    pop quirk on (known defect class), 1 = unexplained *)
